@@ -455,13 +455,15 @@ Fixpoint filter_entries (c : chain) (p : pool) (es : list entry) : option (list 
     | _, _ => None
     end
   end.
-(* removeForReorg(chain, filter): to_remove = entries the filter rejects; GetDescendantsUnion; removeUnchecked each *)
+(* removeForReorg(chain, filter): to_remove = entries the filter rejects; GetDescendantsUnion; removeUnchecked each;
+     for (it : mapTx) assert(TestLockPointValidity(chain, it->GetLockPoints()));            (None when it fails) *)
 Definition remove_for_reorg (c : chain) (p : pool) : option pool :=
   match filter_entries c p (p_entries p) with
   | None => None
   | Some (es', bad) =>
     let p' := {| p_entries := es'; p_next := p_next p; p_size := p_size p; p_fee := p_fee p |} in
-    Some (remove_list p' (descendants p' bad))
+    let p'' := remove_list p' (descendants p' bad) in
+    if forallb (fun e => lock_points_valid c (e_lp e)) (p_entries p'') then Some p'' else None
   end.
 
 (* One ActivateBestChainStep (or one round of InvalidateBlock's loop): disconnect d blocks, connect bs, and - only if a
